@@ -32,8 +32,6 @@ static bool is_printable(const sqfs_u8 *value, size_t len)
 				if (x < 0x20) {
 					if (x >= 0x07 && x <= 0x0D)
 						continue;
-					if (x == 0x00)
-						continue;
 					return false;
 				}
 
